@@ -844,7 +844,7 @@ class InClass:
                         k = v.get(sort)
                     else:
                         k = getattr(v, sort, None)
-                    if not basic_type(type(k)):
+                    if callable(k):
                         try:
                             k = k()
                         except Exception:
